@@ -97,7 +97,11 @@ func (s *SourceSplitter) Start(ckpt *snapshotpb.SourceCheckpoint) error {
 	if err != nil {
 		return fmt.Errorf("kinesis.SourceSplitter failed to discover shards: %w", err)
 	}
-	pendingShards = append(pendingShards, s.splitTracker.AvailableSplits()...)
+
+	// The restored shards were loaded into the tracker as unassigned splits, so
+	// the available splits already include them. Appending them to the restored
+	// list would assign every restored shard twice.
+	pendingShards = s.splitTracker.AvailableSplits()
 
 	// Do the initial split assignment
 	s.assignShards(ctx, pendingShards)
